@@ -155,6 +155,60 @@ def register_machines(ctx):
 
 '''
 
+# mode newbotk: `newbot -k`; every testcase body requests a (fake) machine from tbot.ctx as its first
+# step, so that a kept-alive instance is alive when the run ends — by an exception or normally
+EPILOGUE_K = '''\
+import contextlib
+import tbot.role
+from tbot.machine import machine as _tcv_machine
+
+
+class TcvRole(tbot.role.Role):
+    pass
+
+
+class _TcvStub:
+    def close(self):
+        pass
+
+
+class TcvMachine(_tcv_machine.Machine, TcvRole):
+    name = "tcv"
+
+    @classmethod
+    @contextlib.contextmanager
+    def from_context(cls, ctx):
+        with cls() as m:
+            yield m
+
+    @contextlib.contextmanager
+    def _connect(self):
+        yield _TcvStub()
+
+    @contextlib.contextmanager
+    def _init_shell(self):
+        yield None
+
+    def clone(self):
+        raise NotImplementedError
+
+
+def register_machines(ctx):
+    ctx.register(TcvMachine, TcvRole)
+
+
+_tcv_T = T
+
+
+def T(kind, name, val):
+    if kind == "I":
+        with tbot.ctx.request(TcvRole):
+            pass
+    _tcv_T(kind, name, val)
+
+
+'''
+
 
 def run_cli(case):
     """one subprocess; returns the observation line"""
@@ -165,11 +219,15 @@ def run_cli(case):
     os.makedirs(moddir)
     os.makedirs(outdir)
     log, nestf = os.path.join(outdir, "log.json"), os.path.join(outdir, "nest.txt")
-    src, fns, names = tcgen.render(case, EPILOGUE.format(nest=nestf))
+    epi = EPILOGUE.format(nest=nestf)
+    if case.mode == "newbotk":
+        epi = epi.replace("def register_machines(ctx):\n", "def _tcv_unused(ctx):\n") + EPILOGUE_K
+    src, fns, names = tcgen.render(case, epi)
     with open(os.path.join(moddir, "tcvmod.py"), "w") as f:
         f.write(src)
-    if case.mode == "newbot":
-        argv = [ENTRY["newbot"], "-c", "tcvmod", "--json-log-stream", log] + ["tcvmod." + fn for fn in fns]
+    if case.mode in ("newbot", "newbotk"):
+        argv = [ENTRY["newbot"], "-c", "tcvmod", "--json-log-stream", log] + (["-k"] if case.mode == "newbotk" else [])
+        argv += ["tcvmod." + fn for fn in fns]
     else:
         argv = [ENTRY["tbot"], "--log", log, "-T", moddir] + names
     env = dict(os.environ)
